@@ -37,7 +37,7 @@ def profile():
     return rtwork.rt_profile(p_doc=0.6, p_doc_ref=0.7, p_odd_text=0.4, p_foreign=0.6, n_ns=(2, 4),
                              p_cfg_union_attr=0.4, p_default=0.5, p_annotations=0.6, max_omitted=2,
                              p_custom_ann=0.5, p_examples=0.3, p_hostile_doc=0.08, p_default_via_foreign_alias=0.08,
-                             p_union=0.3)
+                             p_union=0.3, p_sparse_namespace=0.2)
 
 
 def expect_validator(m, t):
